@@ -749,7 +749,7 @@ pub fn c10s_check(sc: &SScenario) -> CaseResult {
         classes.insert("server:stream-ended");
     }
     // it ends at the first quiescence at which inbound is closed, nothing is in flight and everything is flushed
-    for q in v.quiescent.iter().filter(|q| q.seq > closed) {
+    for q in v.quiescent.iter().filter(|q| q.seq > closed && !v.tainted_any) {
         let flushed = q.probes.buffered == 0;
         if q.upper == 0 && flushed && !sink_blocked(q, sc.cfg.cap) {
             if v.stream_end_seq.map_or(true, |s| s > q.seq) && v.stream_err.is_none() {
@@ -863,7 +863,7 @@ pub fn c11s_check(sc: &SScenario, drop_channel: bool) -> CaseResult {
     let m2 = run.recs.iter().position(|r| matches!(&r.ev, Ev::Env { op } if op == "Marker(2)")).unwrap_or(usize::MAX);
     let q = v.quiescent.iter().rev().find(|q| q.seq < m2);
     if let Some(q) = q {
-        if q.probes.dispatch_alive && q.upper == 0 {
+        if q.probes.dispatch_alive && q.upper == 0 && !v.tainted_any {
             if q.probes.server_in_flight != Some(0) || q.probes.server_timers != Some(0) {
                 return fail(&v, format!(
                     "every yielded request has ended (answered, cancelled, expired or abandoned) and the channel is idle (seq {}), but it still tracks {:?} requests and {:?} deadline timers without time having advanced",
